@@ -290,6 +290,13 @@ def run(tier, replay=None):
     run_bounded_reads(chk, F)
     run_static_state(chk, F)
     run_settings_alias(chk, F)
+    # deserialisation rebuilds the dimension bound of the tree it creates (shared rule C01/R3b)
+    from rules import c01, c03
+    from gsa import summary
+    st = c03._only(F, 'st_pat')
+    _cls, st_fns = c01.simplex_tree_functions(st)
+    c01.run_r3b(chk, st_fns, summary.ClassGraph(st_fns), only=('rec_deserialize', 'deserialize', 'rec_copy', 'copy_from'),
+                min_count=2)
     chk.assumptions += ['clang 14 parser/Sema', 'template patterns analysed (all if-constexpr arms present)',
                         'exemption table tables/c15.json (one named symbol + reason each)']
     return chk
